@@ -264,6 +264,12 @@ def corpus_C01(tier):
     for i in range(n):
         inst = corpus.general(rng, i + 1, allow=("restarts", "avg", "npt", "growing", "regress"))
         corpus.with_bounds(rng, inst)
+        if i % 3 == 1 and inst["bounds"] in ("lower", "upper"):
+            # one-sided bounds that are active at the solution, over magnitudes where xbase + (bound - xbase) rounds
+            inst["boxaway"] = True
+            inst["maxfun"] = 60
+            if i % 2 == 0 and not inst.get("nsamples"):
+                inst.update(prob="target1", m=inst["n"] + 1)      # the minimiser lies 5 units beyond the bounds in some coordinates
         if i % 3 == 0 and inst["bounds"] == "both":
             # box away from the unconstrained minimiser: the solution sits on bounds; with scaling the un-scaling of an
             # on-bound solution rounds (lower + 1.0*(upper-lower) != upper)
@@ -306,6 +312,16 @@ def corpus_C01(tier):
                 inst.pop(k, None)
             inst["user_params"] = {}
         inst["maxfun"] = max(inst["maxfun"], 20)
+        out.append(inst)
+    # one-sided bounds, active at the solution: whether xbase + (bound - xbase) rounds to the wrong side depends on the digits of the data, so this
+    # class is sampled densely (short runs: the minimiser of a 'target' problem is reached in a few iterations)
+    nbase = len(out)
+    for j in range(160 if tier == "quick" else 3000):
+        inst = corpus.base(rng, nbase + j + 1, prob="target1", n=int(rng.integers(2, 4)), maxfun=30)
+        inst.update(m=inst["n"] + 1, bounds=corpus._pick(rng, ["lower", "upper"]), boxaway=True, x0place=["in"] * inst["n"], mag=corpus._pick(rng, [1.0, 1.0, 10.0, 1e3]),
+                    smallbounds=bool(j % 2 == 0), roundout=bool(j % 4 == 0))
+        if j % 8 == 0:
+            inst.update(prob="target", m=inst["n"], tgtonbound=True)     # zero residual at a point on the bounds: 'objective is sufficiently small' at a trial point
         out.append(inst)
     return out
 
